@@ -167,7 +167,7 @@ PROPS['C20'] = {
 
 PROPS['C14'] = {
     'kani': {
-        'quick': [krun(['c14::q::'], timeout=1200, bounds='N in {0,1,2,15,16,17,19} (both sides of the N<16 strategy threshold; 19 = first length where an encoder input of >= 16 bytes whose length is not a multiple of 4 meets a longer buffer); all byte values; precision None or symbolic in 0..=2N+2; lower and upper case; fallback encoder (feature faster-hex off)')],
+        'quick': [krun(['c14::q::'], timeout=1200, bounds='N in {0,1,2,15,16,17,20} (both sides of the N<16 strategy threshold; at 20 the 2N-byte buffer is at least 8 bytes longer than twice a 16..=18-byte encoder input); all byte values; precision None or symbolic in 0..=2N+2; lower and upper case; fallback encoder (feature faster-hex off)')],
         'thorough': [krun(['c14::'], timeout=3600, bounds='N in 0..=17 and 31..=33')],
     },
     'functions': ['generic_hex', 'hex_encode', 'hex_encode_fallback', 'LowerHex/UpperHex for GenericArray<u8,N>'],
